@@ -162,7 +162,7 @@ Definition quarter : T := none_ / of_Z 4.
 
 (* [w] are the weights of the space: used for its dimension (zero vector of Huber's
    perturbation, FSep2's split) and by QuadraticForm's constant  <b, A^-1 b> *)
-Fixpoint conj (w : list T) (e : fexpr) : res fexpr :=
+Fixpoint cconj (w : list T) (e : fexpr) : res fexpr :=
   match e with
   | FLp p => Ok (FIndBall (pconj p))
   | FIndBall p => Ok (FLp (pconj p))
@@ -186,25 +186,25 @@ Fixpoint conj (w : list T) (e : fexpr) : res fexpr :=
       end
   | FLeft s f =>
       if s <=? nzero then Err EValue
-      else f' <- conj w f ;; Ok (mul_right (rmul s f') (none_ / s))
+      else f' <- cconj w f ;; Ok (mul_right (rmul s f') (none_ / s))
   | FRight s f =>
-      f' <- conj w f ;;
+      f' <- cconj w f ;;
       if s =? nzero then Err EZeroDiv else Ok (mul_right f' (none_ / s))
   | FRightVec v f =>
-      f' <- conj w f ;; Ok (FRightVec (map (fun a => none_ / a) v) f')
+      f' <- cconj w f ;; Ok (FRightVec (map (fun a => none_ / a) v) f')
   | FSum _ _ => Ok (FDefConj e)
-  | FScalarSum f c => f' <- conj w f ;; Ok (FScalarSum f' (- none_ * c))
-  | FTransl f t => f' <- conj w f ;; Ok (FQuadPert f' nzero t nzero)
+  | FScalarSum f c => f' <- cconj w f ;; Ok (FScalarSum f' (- none_ * c))
+  | FTransl f t => f' <- cconj w f ;; Ok (FQuadPert f' nzero t nzero)
   | FQuadPert f a u c =>
       if a =? nzero then
-        f' <- conj w f ;;
+        f' <- cconj w f ;;
         let g := mkTransl f' u in
         Ok (if c =? nzero then g else FScalarSum g (- none_ * c))
       else Ok (FDefConj e)
-  | FInfConv f g => f' <- conj w f ;; g' <- conj w g ;; Ok (FSum f' g')
+  | FInfConv f g => f' <- cconj w f ;; g' <- cconj w g ;; Ok (FSum f' g')
   | FDefConj f => Ok f
-  | FBreg q => conj w q
-  | FSep2 k f g => f' <- conj (firstn k w) f ;; g' <- conj (skipn k w) g ;; Ok (FSep2 k f' g')
+  | FBreg q => cconj w q
+  | FSep2 k f g => f' <- cconj (firstn k w) f ;; g' <- cconj (skipn k w) g ;; Ok (FSep2 k f' g')
   end.
 
 (* BregmanDistance(f, p, g): all three observables delegate to this QuadraticPerturb *)
